@@ -60,6 +60,19 @@ def _local_names(fi):
     return c
 
 
+def _walk(fi):
+    """All nodes of the function body, lambdas included (their bodies run later, but they read the same locals);
+    nested function / class definitions are functions of their own."""
+    todo = list(reversed(fi.node.body))
+    while todo:
+        n = todo.pop()
+        yield n
+        if isinstance(n, (ast.FunctionDef, ast.AsyncFunctionDef, ast.ClassDef)):
+            todo.extend(reversed(n.decorator_list))
+            continue
+        todo.extend(reversed(list(ast.iter_child_nodes(n))))
+
+
 def _fold_str(repo, fi, expr):
     """Folded value of a constant-valued expression (literals and module-level constants); None when it reads a
     local or cannot be folded."""
@@ -431,7 +444,7 @@ class _Taint(object):
         mod = fi.mod
         self._cur_fi = fi
         env = dict((p, set(ts)) for p, ts in ptags.items())
-        nodes = list(walk_body(fi.node))
+        nodes = list(_walk(fi))
         assigns, binders, unpacks = [], [], []
         for n in nodes:
             if isinstance(n, ast.Assign) and len(n.targets) == 1 and isinstance(n.targets[0], ast.Name):
@@ -707,6 +720,11 @@ def _r18a(rep, repo, meta):
     n_res = sum(1 for fi, n, _, _ in tn.reads if isinstance(n, ast.Attribute) and n.attr == 'resources')
     if n_res < 3:
         raise AnalysisError('meta.py: only %d reads of .resources found (floor 3)' % n_res)
+    seen = set(id(n) for _, n, _, _ in tn.reads)
+    stray = [n for n in ast.walk(meta.tree) if tn.is_source(n) and id(n) not in seen]
+    if stray:
+        raise AnalysisError('meta.py: %d read(s) of a sensitive mapping outside the analysed function bodies (first: line %s, %s)'
+                            % (len(stray), getattr(stray[0], 'lineno', '?'), short(stray[0], 60)))
     # every occurrence of a sensitive mapping (resources, endpoint parameter defaults): names only
     for i, (fi, n, kind, detail) in enumerate(tn.reads):
         rep.check('R18.a', fkey(fi, n) + '#' + str(i), kind is not None,
@@ -741,6 +759,7 @@ def _r18a(rep, repo, meta):
                             'could not be located)')
     # contexts never hold framework objects themselves
     ctx = _context_functions(repo, meta)
+    objs = _object_names(repo, ctx)
     n_vals = 0
     for fi in ctx:
         for n in walk_body(fi.node):
@@ -759,7 +778,7 @@ def _r18a(rep, repo, meta):
                 vals = [n.value]
             for v in vals:
                 n_vals += 1
-                if isinstance(v, ast.Name) and v.id in OBJECT_NAMES:
+                if isinstance(v, ast.Name) and v.id in objs[fi.key]:
                     rep.fail('R18.a', fkey(fi, 'context value ' + v.id), 'the %s object itself is stored in a page context: the JSON view would '
                              'traverse it (resources, secret keys)' % v.id, meta, v)
     rep.ok('R18.a', '%s::context values' % META, '%d values stored in peripheral contexts (%d functions); none is an application/route/'
@@ -794,6 +813,44 @@ def _context_functions(repo, meta):
                 if callee is not None and callee.mod is meta and callee.key not in seen:
                     todo.append(callee)
     return sorted(out, key=lambda f: f.key)
+
+
+def _object_names(repo, ctx):
+    """Per context function: the locals that hold an application / route / middleware / request object itself -- the
+    conventional names, plus aliases, loop variables over ``<object>.routes`` / ``.middlewares`` / ``.peripherals`` and
+    the parameters of helpers such a local is passed to."""
+    objs = dict((fi.key, set(OBJECT_NAMES)) for fi in ctx)
+    by_key = dict((fi.key, fi) for fi in ctx)
+    for _ in range(6):
+        changed = False
+        for fi in ctx:
+            cur = objs[fi.key]
+            for n in walk_body(fi.node):
+                new = None
+                if isinstance(n, ast.Assign) and len(n.targets) == 1 and isinstance(n.targets[0], ast.Name) and \
+                        isinstance(n.value, ast.Name) and n.value.id in cur:
+                    new = n.targets[0].id
+                elif isinstance(n, (ast.For, ast.comprehension)) and isinstance(n.target, ast.Name):
+                    it = n.iter
+                    if isinstance(it, ast.Call) and isinstance(it.func, ast.Name) and it.func.id in SEQ_THROUGH and len(it.args) == 1:
+                        it = it.args[0]
+                    if isinstance(it, ast.Attribute) and it.attr in ('routes', 'middlewares', 'peripherals') and \
+                            isinstance(it.value, ast.Name) and it.value.id in cur:
+                        new = n.target.id
+                elif isinstance(n, ast.Call):
+                    callee, skip = resolve_callee(repo, fi, n)
+                    if callee is not None and callee.key in by_key:
+                        b = bind_args(callee, skip, n) or {}
+                        for p, x in b.items():
+                            if isinstance(x, ast.Name) and x.id in cur and p not in objs[callee.key]:
+                                objs[callee.key].add(p)
+                                changed = True
+                if new is not None and new not in cur:
+                    cur.add(new)
+                    changed = True
+        if not changed:
+            break
+    return objs
 
 
 # ------------------------------------------------------------------------------------------ R18.b
@@ -831,17 +888,36 @@ def _r18b(rep, repo, meta):
                         norm(s.targets[0]) == n.iter.id]
                 if len(srcs) == 1 and any(isinstance(x, ast.Attribute) and x.attr == 'middlewares' for x in ast.walk(srcs[0])):
                     binders.append(n)
-    if len(binders) != 1:
-        raise AnalysisError('get_mw_infos: iteration over the middlewares not found')
-    b = binders[0]
-    mv = b.target.id
-    if isinstance(b, ast.For):
-        scope = [x for s in b.body + b.orelse for x in ast.walk(s)]
-    else:
-        comp = meta.parents.get(b)
-        scope = [x for x in ast.walk(comp) if not any(x is y for y in ast.walk(b.iter))]
     attrs = set()
-    _mw_reads(repo, gm, scope, mv, attrs)
+    if len(binders) == 1:
+        b = binders[0]
+        mv = b.target.id
+        if isinstance(b, ast.For):
+            scope = [x for s in b.body + b.orelse for x in ast.walk(s)]
+        else:
+            comp = meta.parents.get(b)
+            scope = [x for x in ast.walk(comp) if not any(x is y for y in ast.walk(b.iter))]
+        _mw_reads(repo, gm, scope, mv, attrs)
+    elif not binders:
+        # map(<function>, <middlewares>): the function's first parameter is the middleware
+        found = 0
+        for n in walk_body(gm.node):
+            if isinstance(n, ast.Call) and call_name(n) == 'map' and len(n.args) == 2 and not n.keywords and \
+                    _iter_mentions(gm, n.args[1], 'middlewares'):
+                f = n.args[0]
+                if isinstance(f, ast.Lambda) and len(f.args.args) == 1:
+                    found += 1
+                    _mw_reads(repo, gm, list(ast.walk(f.body)), f.args.args[0].arg, attrs)
+                elif isinstance(f, ast.Name):
+                    callee, skip = resolve_callee(repo, gm, ast.Call(func=f, args=[], keywords=[]))
+                    ps = callee.params()[skip:] if callee is not None else []
+                    if ps:
+                        found += 1
+                        _mw_reads(repo, callee, list(walk_body(callee.node)), ps[0], attrs)
+        if found != 1:
+            raise AnalysisError('get_mw_infos: iteration over the middlewares not found')
+    else:
+        raise AnalysisError('get_mw_infos: %d iterations over the middlewares (one expected)' % len(binders))
     ok = attrs <= MW_ATTRS
     rep.check('R18.b', fkey(gm, 'attributes read'), ok, 'only %s (and repr(mw)) are read from a middleware' % sorted(attrs) if ok else
               'get_mw_infos reads %s from middlewares' % sorted(attrs - MW_ATTRS), meta, gm.node)
@@ -879,9 +955,16 @@ def _inject_calls(repo, fi, wanted, chain=(), seen=None):
     for c in walk_body(fi.node):
         if not isinstance(c, ast.Call):
             continue
-        if call_name(c) == 'inject' and c.args and isinstance(c.args[0], ast.Attribute) and c.args[0].attr in wanted:
-            out.append((fi, c, chain))
-            continue
+        if call_name(c) == 'inject' and c.args:
+            target = c.args[0]
+            if isinstance(target, ast.Name):     # the bound method may be named first
+                srcs = [s.value for s in stmts_of(fi.node) if isinstance(s, ast.Assign) and len(s.targets) == 1 and
+                        isinstance(s.targets[0], ast.Name) and s.targets[0].id == target.id]
+                if len(srcs) == 1:
+                    target = srcs[0]
+            if isinstance(target, ast.Attribute) and target.attr in wanted:
+                out.append((fi, c, chain))
+                continue
         callee, _ = resolve_callee(repo, fi, c)
         if callee is not None and callee.mod is fi.mod and callee.name not in ('get_main', 'render_main_page_html'):
             out.extend(_inject_calls(repo, callee, wanted, chain + ((fi, c),), seen))
